@@ -559,7 +559,8 @@ class C06(Prop):
     gen_deps = ("Tables.v", "Layouts.v", "Inventory.v")
     technique = "Coq: monotonicity invariant over histories (caches only grow), per-step frame conditions by protocol and version gate, last-definition-wins lemma for the insert fold, origin invariant (every cache entry was there before the call or its record occurs in the buffer); correspondence on S after every call, 1-3 parsers"
     level_text = ("Theorems C06_* (coq/Props/C06.v): for every buffer, state and allowed set no template is ever evicted (invariant lifted over the "
-                  "packet loop, hence over every history of calls); a step whose version word is not 9 (not 10) leaves the V9 (IPFIX) caches equal, a "
+                  "packet loop, hence over every history of calls; per protocol: an id that has a template of either kind keeps having one, a definition "
+                  "of the other kind supersedes it, C06_one_kind_*); a step whose version word is not 9 (not 10) leaves the V9 (IPFIX) caches equal, a "
                   "disallowed or missing version word leaves the whole state equal; after a template flowset an id maps to the last record of that id; "
                   "data is decoded with the entry of the state just before it; splitting into calls is immaterial (C11); no static or shared item exists.")
     level_note = "C06_entries_were_sent: after any call, failed or not, every entry of the four caches was there before or its record's wire form occurs in the buffer; instance isolation is by construction in the model and by the regenerated static-items inventory plus multi-parser correspondence for the crate"
